@@ -1,7 +1,10 @@
 """C06 worker: opens each input of a batch file under an address-space limit and a per-input alarm,
 appending one outcome line per input (so the parent knows the culprit when the process dies).
-usage: python -m vh.c06_worker <batch.bin> <out.txt> <rlimit_mb> <per_input_seconds>
-batch.bin: repeated [u32 id][u32 len][bytes]"""
+usage: python -m vh.c06_worker <batch.bin> <out.txt> <rlimit_mb> <per_input_seconds> [open|engine|decode]
+batch.bin: repeated [u32 id][u32 len][bytes]
+Every fp.read call of the run is counted (io.BytesIO is replaced by a counting subclass in THIS process only): the
+outcome line ends with " |r=<calls>,<bytes returned>".  mode decode: open, then every pixel-decoding entry point
+(topil / numpy of the document and of each layer, composite) - the allocation sites sized by declared geometry."""
 import io
 import resource
 import signal
@@ -16,6 +19,9 @@ import logging  # noqa
 
 logging.disable(logging.CRITICAL)
 from psd_tools import PSDImage  # noqa
+from vh import c06_cost  # noqa
+
+c06_cost.install_counting_io()
 
 
 class Hang(Exception):
@@ -43,9 +49,31 @@ def main():
             fo.write("S %d\n" % cid)
             t0 = time.time()
             rss0 = resource.getrusage(resource.RUSAGE_SELF).ru_maxrss
+            c06_cost._C.reads = c06_cost._C.nbytes = 0
             signal.alarm(secs)
             try:
-                if mode == "engine":
+                if mode == "decode":
+                    psd = PSDImage.open(c06_cost.CountingBytesIO(b))
+                    layers = list(psd.descendants())
+                    grown_open = (resource.getrusage(resource.RUSAGE_SELF).ru_maxrss - rss0) // 1024
+                    outs = []
+                    calls = [("topil", psd.topil), ("numpy", psd.numpy), ("composite", lambda: psd.composite(force=True))]
+                    for k, l in enumerate(layers[:2]):
+                        calls += [("L%d.topil" % k, l.topil), ("L%d.numpy" % k, l.numpy)]
+                    for nm, f in calls:
+                        try:
+                            f()
+                            o = "ok"
+                        except Hang:
+                            raise
+                        except MemoryError:
+                            o = "MemoryError"
+                        except Exception as e:
+                            o = type(e).__name__
+                        outs.append("%s=%s" % (nm, o))
+                    res = "ok %d open-rss=%dMB %s" % (len(layers), grown_open, ";".join(outs))
+                    rss0 = resource.getrusage(resource.RUSAGE_SELF).ru_maxrss  # decode-time growth is reported, not judged here
+                elif mode == "engine":
                     # the text-engine-data parser that opening a type layer runs on the embedded blob
                     from psd_tools.psd.engine_data import EngineData, EngineData2
 
@@ -62,7 +90,7 @@ def main():
                             pass
                     res = "ok %d" % n
                 else:
-                    psd = PSDImage.open(io.BytesIO(b))
+                    psd = PSDImage.open(c06_cost.CountingBytesIO(b))
                     # touching the tree is part of "opening"
                     nlayers = sum(1 for _ in psd.descendants())
                     res = "ok %d" % nlayers
@@ -79,7 +107,7 @@ def main():
             grown_mb = (resource.getrusage(resource.RUSAGE_SELF).ru_maxrss - rss0) // 1024
             if grown_mb > 768 and not res.startswith(("HANG", "MEMORY")):
                 res = "MEMORY peak-rss-grew-%dMB (%s)" % (grown_mb, res)
-            fo.write("E %d %.3f %s\n" % (cid, time.time() - t0, res))
+            fo.write("E %d %.3f %s |r=%d,%d\n" % (cid, time.time() - t0, res, c06_cost._C.reads, c06_cost._C.nbytes))
 
 
 if __name__ == "__main__":
